@@ -14,8 +14,40 @@ contract(E + "Element.properties@setter",
 V = "statham.schema.validation:"
 ELEM_OK = "isinstance(element, Element) or is_cls(element)"
 
+# get_validators: which keyword validators an element gets.  For every keyword-validator class K (all subclasses of Validator
+# except the two type validators): the list holds a K built from the element's keyword values iff all of K's keywords are set
+# on the element; every member is such a K (nothing else gets in).  Membership form (lemma IS-MEM); order is not promised
+# (the classes are enumerated from a set: C09's concern).
+from contracts.validators import TABLE as _VT
+_GV = []
+def _missing(names, who="element"):
+    return " or ".join(f"(attr_absent({who},'{k}') or is_np({who}.{k}))" for k in names)
+_KCLASSES = []
+for _mod, _K, _vp, _vk, _ts, _kws, _cond, _extra in _VT:
+    names = list(_kws)
+    if _K == "Required":
+        present = "len(eff_required(element)) != 0"
+        params = "m.params['required'] is eff_required(element)"
+    elif _K == "AdditionalProperties":
+        present = "not (" + _missing(names) + ")"
+        params = "isinstance(m.params['__properties__'], Properties)"
+    else:
+        present = "not (" + _missing(names) + ")"
+        params = " and ".join(f"m.params['{k}'] is element.{k}" for k in names)
+    _GV.append((_K, present, params))
+for _K, names in (("Const", ["const"]), ("Enum", ["enum"])):
+    _GV.append((_K, "not (" + _missing(names) + ")", " and ".join(f"m.params['{k}'] is element.{k}" for k in names)))
+_GV.append(("UniqueItems", "not (attr_absent(element,'uniqueItems') or is_np(element.uniqueItems) or element.uniqueItems is False)",
+            "m.params['uniqueItems'] is element.uniqueItems"))
+GV_POST = " and ".join(
+    [f"implies({present}, some_member(result, lambda m: type_is(m, {K}) and dict_wf(m.params) and {params}))" for K, present, params in _GV] +
+    [f"all_members(result, lambda m: implies(type_is(m, {K}), ({present}) and dict_wf(m.params) and {params}))" for K, present, params in _GV] +
+    ["all_members(result, lambda m: " + " or ".join(f"type_is(m, {K})" for K, _, _ in _GV) + ")"])
+GV_REQ = ("(attr_absent(element,'properties') or is_np(element.properties) or is_none(element.properties) or (isinstance(element.properties, _PropertyDict) and "
+          "is_list(element.properties.required) and forall(lambda j: is_str(element.properties.required[j]), len(element.properties.required)))) and "
+          "(attr_absent(element,'__properties__') or is_np(element.__properties__) or isinstance(element.__properties__, Properties))")
 contract(V + "get_validators", requires="is_obj(element) and elem_wf(element)",
-         returns="is_list(result) and forall(lambda j: isinstance(result[j], Validator), len(result))",
+         returns="is_list(result) and all_members(result, lambda m: isinstance(m, Validator)) and " + GV_POST,
          result_kind="list", ghost={"result_fresh": True},
          props=["C01", "C08", "C13", "C14", "C09"])
 
@@ -36,10 +68,21 @@ for K in ["Element", "String", "Integer", "Number", "Boolean", "Null", "Array"]:
              returns=f"type_is(result, InstanceOf) and dict_wf(result.params) and has(result.params,'types') and result.params['types'] is {TYPES[K]}",
              ghost={"result_fresh": True}, props=["C01", "C08", "C13"])
 
+# Element.validators per class: the class's type validator (InstanceOf over exactly TYPES[K]) plus the keyword validators of
+# get_validators -- membership form, same clauses with `self` for `element`
+def _val_post(K):
+    sub = lambda t: t.replace("element", "self")
+    cl = [f"implies({sub(present)}, some_member(result, lambda m: type_is(m, {C}) and dict_wf(m.params) and {sub(params)}))" for C, present, params in _GV]
+    cl += [f"all_members(result, lambda m: implies(type_is(m, {C}), ({sub(present)}) and dict_wf(m.params) and {sub(params)}))" for C, present, params in _GV]
+    cl += ["all_members(result, lambda m: type_is(m, InstanceOf) or " + " or ".join(f"type_is(m, {C})" for C, _, _ in _GV) + ")"]
+    cl += [f"some_member(result, lambda m: type_is(m, InstanceOf) and dict_wf(m.params) and has(m.params,'types') and m.params['types'] is {TYPES[K]})",
+           f"all_members(result, lambda m: implies(type_is(m, InstanceOf), dict_wf(m.params) and has(m.params,'types') and m.params['types'] is {TYPES[K]}))"]
+    return " and ".join(cl)
 for K in INST_CLASSES:
-    contract(E + "Element.validators", inst=K, requires="elem_wf(self)",
-             returns="is_list(result) and forall(lambda j: isinstance(result[j], Validator), len(result)) and len(result) >= 1 and type_is(result[0], InstanceOf)",
-             result_kind="list", ghost={"result_fresh": True}, props=["C01", "C08", "C13", "C14", "C17", "C18"])
+    contract(E + "Element.validators", inst=K, requires="elem_wf(self) and " + GV_REQ.replace("element", "self"),
+             returns="is_list(result) and all_members(result, lambda m: isinstance(m, Validator)) and len(result) >= 1 and type_is(result[0], InstanceOf) and " + _val_post(K),
+             result_kind="list", ghost={"result_fresh": True}, props=["C01", "C08", "C13", "C14", "C17", "C18"],
+             assume=["result is validators_of(self)"])
 
 contract(E + "Nothing.validators", requires="True",
          returns="is_list(result) and len(result) == 1 and type_is(result[0], NoMatch)", result_kind="list", ghost={"result_fresh": True},
@@ -79,12 +122,20 @@ for K in ["Element", "String", "Integer", "Boolean", "Null", "Array"]:
     contract(E + "Element.construct", inst=K, requires=CONS_REQ,
              returns="implies(not is_list(value) and not is_dict(value), result is value)",
              may_raise=[(("ValidationError", "TypeError"), "is_list(value) or is_dict(value)")],
+             ghost={"defines_raise": "not csem(self, value)"}, assume=["result is cbuild(self, value)"],
              lemmas=["DICT-ITEM"],
              props=["C01", "C04", "C08", "C10", "C13", "C14"])
 
+# Element.__call__ per class.  C05's clause in full: with no value, the (non-NotPassed) default is converted exactly as if it
+# had been supplied when the element accepts it, and returned as is when it does not -- never an error; NotPassed when there is
+# no default.  With a value: every validator of the element is run (if the call returns, all of them accepted); for the scalar
+# classes construct is the identity, so the call raises iff some validator rejects, and returns the value itself.
+DEFAULT_CLAUSE = ("implies(is_np(value) and is_np(self.default), result is value) and "
+                  "implies(is_np(value) and not is_np(self.default), result is (build(self, self.default) if sem(self, self.default) else self.default))")
+CALL_INV = {1: "all_members(prefix(_seq, _k), lambda m: not vrejects(m, value))"}
 for K in ["Element", "String", "Integer", "Boolean", "Null", "Array"]:
     contract(E + "Element.__call__", inst=K, requires=CALL_REQ + " and not attr_absent(self,'default') and (is_np(self.default) or is_json(self.default))",
-             returns="implies(is_np(value) and is_np(self.default), result is value)",
-             may_raise=[(("ValidationError", "TypeError"), "not is_np(value)")],
-             kinds={"validator": "Validator"}, lemmas=["DICT-ITEM"],
+             returns=DEFAULT_CLAUSE + " and implies(not is_np(value), result is build(self, value))",
+             raises=[(("ValidationError", "TypeError"), "not is_np(value) and not sem(self, value)")],
+             kinds={"validator": "Validator"}, lemmas=["DICT-ITEM"], invariants=CALL_INV,
              props=["C01", "C04", "C05", "C08", "C10", "C13", "C14"])
